@@ -861,6 +861,8 @@ static Node *declaration(Token **rest, Token *tok, Type *basety, VarAttr *attr) 
 
     if (attr && attr->is_static) {
       // static local variable
+      if (ty->kind == TY_VLA)
+        error_tok(ty->name, "variable length array with static storage duration or linkage");
       Obj *var = new_anon_gvar(ty);
       var->is_tls = attr->is_tls;
       push_scope(get_ident(ty->name))->var = var;
@@ -3515,6 +3517,8 @@ static Token *global_variable(Token *tok, Type *basety, VarAttr *attr) {
     Type *ty = declarator(&tok, tok, basety);
     if (!ty->name)
       error_tok(ty->name_pos, "variable name omitted");
+    if (ty->kind == TY_VLA)
+      error_tok(ty->name, "variable length array with static storage duration or linkage");
 
     Obj *var = new_gvar(get_ident(ty->name), ty);
     var->is_definition = !attr->is_extern;
